@@ -2,6 +2,7 @@
 from vlib.core import Case, hx
 
 ID = "C05"
+NEEDS_CLI = True
 N = 0xFFFFFFFFFFFFFFFFFFFFFFFFFFFFFFFEBAAEDCE6AF48A03BBFD25E8CD0364141
 RULE = ("op acct.sign <key> <digest> (in one process: try_sign twice, sign, another key signing the same digest, this key signing another digest, then sign/try_sign again — all results for (key, digest) must be equal and the other key's two results too): keys 1,2,n-2,n-1,random; digests 0,1,n-1,n,n+1,2^256-1,random; "
         "a corpus of pairs whose signature has a short r or s (60 per quick run) or a zero byte at each interior position 1..31 of r and of s, and of pairs whose s lies within 2^-8 .. 2^-24 of the half order (the low-s boundary); keys and digests of 32 bytes that look like text; non-trivial = distinct (key, digest); the run must contain both parities and both s halves (counted via extra check); "
@@ -57,7 +58,20 @@ def gen(rng, tier):
             cases.append(Case("acct.sign %s %s" % (k, d), tags=("zero-byte-inside",)))
         if not want and tier != "thorough":
             break
+    # the command-line route `sign raw`: boundary and random digests in every spelling the digest parser accepts (lower, upper
+    # and mixed case, with and without 0x) must give the RFC 6979 signature of the selected key over exactly that digest
+    from vlib import bip39
+    mn = hx(" ".join(bip39.rand_phrase(rng, 12)))
+    for d in [0, 1, N - 1, N, 2 ** 256 - 1, 0xa1de988600a42c4b4ab089b619297c17d53cffae5d5120d82d8a92d0bb3b78f2, 0xABCDEFabcdef << 200 | 0xfedcba, rng.getrandbits(256), rng.getrandbits(256)]:
+        low = "%064x" % d
+        mixed = "".join(c.upper() if i % 3 == 0 else c for i, c in enumerate(low))
+        for v in ("0x" + low, low, "0x" + low.upper(), low.upper(), "0x" + mixed, mixed):
+            cases.append(Case("cli.sign_raw %s - default %s" % (mn, hx(v)), tags=("cli-sign-raw", "digest-spelling"), runner="cli", meta={"via": {}}))
     return cases
+
+
+from vlib import cli as _cli  # noqa: E402
+run_cli = _cli.run_cli
 
 
 def extra_checks(cases, impl, model, verdicts, tier, rng, cov):
